@@ -79,7 +79,8 @@ class Statistics:
     def __mul__(self, other: Any) -> Statistics:
         if not np.isscalar(other):
             return INVALID_STATISTICS
-        other_scalar = cast(float, other)
+        # (a python number: a narrow numpy scalar would drag the sums down to its precision)
+        other_scalar = other.item() if isinstance(other, np.generic) else cast(float, other)
         return dataclasses.replace(
             self,
             sum=self.sum * other_scalar,
